@@ -996,3 +996,13 @@ TABLE["C01"] += [
     B("const-as-plain-literal", {"G9"},
       (IP + "tokens.py", "CONST, VIRTUAL, CLASS, STATIC, PAIR, TEMPLATE, TYPEDEF, INCLUDE = map(\n    Keyword,", "CONST, VIRTUAL, CLASS, STATIC, PAIR, TEMPLATE, TYPEDEF, INCLUDE = map(\n    Literal,")),
 ]
+_WRAP_HEAD = (MW, "        \"\"\"High level function to wrap the project.\"\"\"\n        content = \"\"\n",
+              "        \"\"\"High level function to wrap the project.\"\"\"\n        self._start_run()\n        content = \"\"\n")
+_START_ID_ONLY = (MW, "    def _qualified_name(self, names):\n", "    def _start_run(self):\n        self.wrapper_id = 0\n        self.content = []\n\n    def _qualified_name(self, names):\n")
+_START_BOTH = (MW, "    def _qualified_name(self, names):\n", "    def _start_run(self):\n        self.wrapper_id = 0\n        self.wrapper_map = {}\n        self.content = []\n\n    def _qualified_name(self, names):\n")
+TABLE["C05"] += [
+    B("run-restart-resets-the-counter-but-not-the-map", {"I1"}, _WRAP_HEAD, _START_ID_ONLY),
+    N("run-restart-resets-counter-and-map", _WRAP_HEAD, _START_BOTH),
+    B("accessor-prefix-from-a-different-class-spelling", {"I6"},
+      (MW, "                if method_name.startswith(class_name + \"_get_\"):", "                if method_name.startswith(self._format_class_name(collector_func[1]) + \"_get_\"):")),
+]
